@@ -444,9 +444,13 @@ class Result:
         e = n.elt
         ok = (not g.ifs and isinstance(g.target, ast.Name) and isinstance(e, ast.Subscript) and isinstance(e.value, ast.Name)
               and e.value.id == g.target.id and isinstance(e.slice, ast.Constant) and isinstance(e.slice.value, int))
-        if not ok or self.q.dist or self.q.lim is not None:
+        if not ok or self.q.lim is not None:
             raise Unsupported('comprehension over a result (only [row[i] for row in result] is modelled)')
         i = e.slice.value
+        if self.q.dist:
+            if len(self.q.cols) == 1 and i == 0 and self.q.cols[0].name == 'pack_id' and isinstance(n, ast.SetComp):
+                return PackIdBag(I, self)
+            raise Unsupported('comprehension over a DISTINCT result (only {row[0] ...} over the pack ids is modelled)')
         if not (0 <= i < len(self.q.cols)) or self.q.cols[i].name != 'hashkey':
             raise Unsupported('comprehension over a result selecting another column than hashkey')
         vc = I.vc
@@ -455,10 +459,55 @@ class Result:
         cnt = SInt.fresh('nselected')
         vc.assume(cnt >= 0)
         EM.effect(I, 'sql_rows_fetched', result=self)
+        if isinstance(n, ast.SetComp):
+            from .engine import MSet
+            return MSet(S)
         return MList(None, n=cnt, elems=S, distinct=SBool.of(True))
 
     def sym_truth(self, vc):
         return True
+
+
+class PackIdBag:
+    """{row[0] for row in execute(select(Obj.pack_id).distinct() [where ...])}: the set of pack ids occurring in the
+    matching rows. sorted() of it is the same collection (iteration order is immaterial to the contracts)."""
+
+    def __init__(self, I, res):
+        self.res = res
+
+    def sym_sorted(self, I):
+        return self
+
+    def member(self, done, p):
+        return SBool(z3.IsMember(SInt.of(p).t, done))
+
+    def iter_model(self, I):
+        return _PackIdIter(I, self)
+
+
+class _PackIdIter:
+    """Ghost: done = z3 set of the pack ids already visited."""
+
+    def __init__(self, I, bag):
+        self.I, self.bag = I, bag
+
+    def start(self, vc):
+        return {'done': z3.EmptySet(z3.IntSort()), 'bag': self.bag}
+
+    def havoc(self, vc, g):
+        return dict(g, done=z3.Const(fresh_name('packs_done'), z3.SetSort(z3.IntSort())))
+
+    def step(self, vc, g):
+        res, I = self.bag.res, self.I
+        wk = vc.key(SStr.fresh('row_of_pack'))
+        vc.assume(res.matches(I, wk))
+        p = res.T.col('pack_id', wk)
+        vc.assume(b_not(SBool(z3.IsMember(p.t, g['done']))))
+        return p, dict(g, done=z3.SetAdd(g['done'], p.t), pack=p)
+
+    def finish(self, vc, g):
+        res, I, done = self.bag.res, self.I, g['done']
+        vc.assume(Forall(lambda k: implies(res.matches(I, k), SBool(z3.IsMember(res.T.col('pack_id', k).t, done)))))
 
 
 class _ResultIter:
